@@ -179,10 +179,10 @@ CHECKS = {
              "'-' / 0 otherwise; replacing any single digit by another digit changes the checksum in every column; _check_validity "
              "accepts iff line numbers, both lengths (68/69/70 explored) and both checksum characters are right. (c) from_string: "
              "every sequence of up to 4 (quick) / 5 (thorough) lines of kinds {name, line1, line2, comment, blank, corrupted line1} "
-             "yields exactly the valid consecutive entries.",
+             "yields exactly the valid consecutive entries. (d) The real _float runs on the six sign shapes [ +-]DDDDD[+-]D of a "
+             "'decimal point assumed' field (ndotdot/6, B*) with the six digits symbolic: value = +-0.DDDDD x 10^(+-D).",
         note="Trusted: z3 (sequence theory for the layout queries); the AST extraction; CPython str.format widths. Compositional "
-             "step: sums of summands that agree column by column agree. Outside: numeric precision of the float fields and the "
-             "digit-level _float/_unfloat round trip (floating point / decimal conversion), classification other than U, "
+             "step: sums of summands that agree column by column agree. Outside: _unfloat and the float -> text -> float round trip of those fields (binary64 / decimal conversion), classification other than U, "
              "non-canonical encodings of zero or explicit '+' signs.",
         ref="DESIGN.md section 3 C12", technique="AST-derived SMT (z3 strings/LIA) for the column layout; bounded symbolic execution of the real checksum/validity code on symbolic characters; solver-enumerated line-kind sequences for from_string"),
     "C19": dict(
